@@ -31,6 +31,10 @@ pub struct PrCase {
 	/// "" | cert | key | both: that file is a symbolic link to a regular file in another directory | dir: the directory is a link
 	#[serde(default)]
 	pub linked: String,
+	/// what follows the (intact) certificate in the file: "" | issuer (a second, well-formed certificate) | cut-block (a second block
+	/// cut in the middle, as an interrupted write of a chain leaves it) | text (a comment line)
+	#[serde(default)]
+	pub tail: String,
 }
 
 fn issuer() -> &'static Issuer {
@@ -74,12 +78,12 @@ fn pr_strategy() -> impl Strategy<Value = PrCase> {
 		prop_oneof![3 => Just(1usize), 1 => Just(200usize)],
 		any::<u64>(),
 		any::<i8>(),
-		(any::<bool>(), prop_oneof![6 => Just(""), 1 => Just("cert"), 1 => Just("key"), 1 => Just("both"), 1 => Just("dir")]),
+		(any::<bool>(), prop_oneof![6 => Just(""), 1 => Just("cert"), 1 => Just("key"), 1 => Just("both"), 1 => Just("dir")], prop_oneof![5 => Just(""), 1 => Just("issuer"), 1 => Just("cut-block"), 1 => Just("text")]),
 	)
-		.prop_map(|(ids, san_mode, rel, renew_delay, rer, missing, repeats, perm, edge, (at_edge, linked))| {
+		.prop_map(|(ids, san_mode, rel, renew_delay, rer, missing, repeats, perm, edge, (at_edge, linked, tail))| {
 			// +-1 s around now + renew_delay
 			let not_after_rel = if at_edge && renew_delay < (7000 * YEAR) as u64 { renew_delay as i64 + (edge % 3) as i64 } else { rel };
-			PrCase { ids, san_mode: san_mode.to_string(), not_after_rel, renew_delay, random_early_renew: rer, missing: missing.to_string(), repeats, perm, linked: linked.to_string() }
+			PrCase { ids, san_mode: san_mode.to_string(), not_after_rel, renew_delay, random_early_renew: rer, missing: missing.to_string(), repeats, perm, linked: linked.to_string(), tail: tail.to_string() }
 		})
 }
 
@@ -146,7 +150,18 @@ fn exec_pr(case: &PrCase) -> Outcome {
 		}
 	};
 	if case.missing != "cert" {
-		put("s_ecdsa-p256.crt.pem", &pem, case.linked == "cert" || case.linked == "both");
+		// the first certificate of the file is the one that counts; what follows it does not change when the renewal is due
+		let mut file = pem.clone();
+		match case.tail.as_str() {
+			"issuer" => file.extend_from_slice(&issuer().root_pem()),
+			"cut-block" => {
+				let r = issuer().root_pem();
+				file.extend_from_slice(&r[..r.len() / 2]);
+			}
+			"text" => file.extend_from_slice(b"# renewed by hand on Tuesday\n"),
+			_ => {}
+		}
+		put("s_ecdsa-p256.crt.pem", &file, case.linked == "cert" || case.linked == "both");
 	}
 	if case.missing != "key" {
 		put("s_ecdsa-p256.pk.pem", key_pem, case.linked == "key" || case.linked == "both");
@@ -203,7 +218,7 @@ fn exec_pr(case: &PrCase) -> Outcome {
 		}
 	}
 	let e = e_at(t0);
-	let mut classes = vec![format!("san={}", case.san_mode), format!("missing={}", case.missing), format!("linked={}", if case.linked.is_empty() { "no" } else { &case.linked })];
+	let mut classes = vec![format!("san={}", case.san_mode), format!("missing={}", case.missing), format!("linked={}", if case.linked.is_empty() { "no" } else { &case.linked }), format!("after-the-certificate={}", if case.tail.is_empty() { "nothing" } else { &case.tail })];
 	if case.not_after_rel < 0 {
 		classes.push("expired".into());
 	}
@@ -341,7 +356,7 @@ fn exec_bb(case: &BbCase) -> Outcome {
 }
 
 pub fn run(ctx: &Ctx, rep: &mut Report) {
-	rep.rule = "pr: (certificate on disk, key file, configuration) triples: notAfter from -10 years to +7900 years around the call incl. +-1 s around now+renew_delay and beyond 2^31 s; SAN = configured identifiers permuted / superset / strict subset / disjoint (1..5 identifiers: wildcard, IDN, IPv4, IPv6); renew_delay and random_early_renew in {0, 1 s, ..., larger than the lifetime, 1e9 s, thousands of years}; either file absent; certificate file, key file, both or the directory reached through a symbolic link (1 case in 2.5); 1 or 200 evaluations. Oracle on the duration D returned by the daemon's scheduling decision with wall clock t0/t1 around the call: missing file or identifier => D = 0; else E(t) = max(0, notAfter - t - renew_delay): D <= E(t0)+1 and D >= E(t1)-R-1; 200 evaluations spread over every third of the jitter range, equal when R = 0; never a crash or error. bb: mock CA issues certificates valid L in 3..6 s (in half of the cases next to 1..2 other certificates of the same account and endpoint whose files are valid for 90 days and which must only wait), renew_delay 0..7 s, jitter 0..2 s: the second newOrder arrives within [L-d-R-1.2 s, max(L-d,0)+2.5 s] after issuance. Non-trivial = all identifiers covered and E > 0.".into();
+	rep.rule = "pr: (certificate on disk, key file, configuration) triples: notAfter from -10 years to +7900 years around the call incl. +-1 s around now+renew_delay and beyond 2^31 s; SAN = configured identifiers permuted / superset / strict subset / disjoint (1..5 identifiers: wildcard, IDN, IPv4, IPv6); renew_delay and random_early_renew in {0, 1 s, ..., larger than the lifetime, 1e9 s, thousands of years}; either file absent; the certificate followed in its file by nothing, its issuer, a block cut in the middle or a line of text; certificate file, key file, both or the directory reached through a symbolic link (1 case in 2.5); 1 or 200 evaluations. Oracle on the duration D returned by the daemon's scheduling decision with wall clock t0/t1 around the call: missing file or identifier => D = 0; else E(t) = max(0, notAfter - t - renew_delay): D <= E(t0)+1 and D >= E(t1)-R-1; 200 evaluations spread over every third of the jitter range, equal when R = 0; never a crash or error. bb: mock CA issues certificates valid L in 3..6 s (in half of the cases next to 1..2 other certificates of the same account and endpoint whose files are valid for 90 days and which must only wait), renew_delay 0..7 s, jitter 0..2 s: the second newOrder arrives within [L-d-R-1.2 s, max(L-d,0)+2.5 s] after issuance. Non-trivial = all identifiers covered and E > 0.".into();
 	run_replays::<PrCase>(ctx, rep, "pr", &exec_pr);
 	run_replays::<BbCase>(ctx, rep, "bb", &exec_bb);
 	if ctx.replay.is_some() {
